@@ -157,8 +157,17 @@ class CursorInterp:
             it = it.args[0]
         return it
 
+    def _generator_alias(self, it, env):
+        """`chunks = gen(...)` ... `for c in chunks`: the local stands for the generator call when it is assigned exactly once"""
+        if isinstance(it, ast.Name):
+            fi = env["fi"]
+            defs = [n for n in walk_body(fi.node) if isinstance(n, ast.Assign) and any(isinstance(t, ast.Name) and t.id == it.id for t in n.targets)]
+            if len(defs) == 1 and isinstance(self._unwrap_iter(defs[0].value), ast.Call):
+                return self._unwrap_iter(defs[0].value)
+        return it
+
     def for_loop(self, s, state, env):
-        it = self._unwrap_iter(s.iter)
+        it = self._generator_alias(self._unwrap_iter(s.iter), env)
         gens, nongens = [], []
         if isinstance(it, ast.Call):
             targets = self.resolve(it, env)
@@ -213,6 +222,25 @@ class CursorInterp:
     def expr(self, e, state, env):
         if e is None:
             return state
+        if isinstance(e, ast.YieldFrom):
+            # yield from gen(...)  ==  for x in gen(...): yield x
+            inner = self._generator_alias(self._unwrap_iter(e.value), env)
+            if isinstance(inner, ast.Call):
+                targets = self.resolve(inner, env)
+                gens = [(t, c) for (t, c) in targets if t.is_generator]
+                if gens and len(gens) == len(targets):
+                    st0 = state
+                    for a in list(inner.args) + [k.value for k in inner.keywords]:
+                        st0 = self.expr(a, st0, env)
+                    out = frozenset()
+                    for (callee, self_cls) in gens:
+                        streams = self.bind_streams(callee, inner, env, self_cls)
+
+                        def on_yield(st, env=env):
+                            self.n_yields += 1
+                            return frozenset(env["on_yield"](st))
+                        out = out | self.run_func(callee, self_cls, streams, st0, on_yield, env["depth"] + 1)
+                    return out
         if isinstance(e, (ast.Yield, ast.YieldFrom)):
             if e.value is not None:
                 state = self.expr(e.value, state, env)
@@ -288,8 +316,8 @@ class CursorInterp:
                     return self.need_P(state, fi, c, "%s.%s" % (recv, m))
                 return state
         # next(gen(...)) : runs the generator up to its first yield and abandons it
-        if cn == "next" and c.args and isinstance(self._unwrap_iter(c.args[0]), ast.Call):
-            inner = self._unwrap_iter(c.args[0])
+        if cn == "next" and c.args and isinstance(self._generator_alias(self._unwrap_iter(c.args[0]), env), ast.Call):
+            inner = self._generator_alias(self._unwrap_iter(c.args[0]), env)
             targets = self.resolve(inner, env)
             if targets and all(t.is_generator for t, _ in targets):
                 for a in list(inner.args) + [k.value for k in inner.keywords]:
